@@ -66,6 +66,11 @@ def run(tier, seed, replay=None):
         r = random.Random(rng.getrandbits(64))
         text, _ops = fuzz11.mutate_tokens(r, fuzz11.SEEDS[r.choice(sorted(fuzz11.SEEDS))], r.choice([1, 2, 4]))
         bad.append(("e_mut%02d" % k, text))
+    # a valid program that would pick up the preprocessor's predefined macros for date, time, file and line if there were any
+    bad.append(("ok_predefined_macros", '#include "stddef.gdh"\n#ifdef __TIME__\n#define STAMP __TIME__\n#else\n#define STAMP "unstamped"\n#endif\n'
+                '#ifdef __DATE__\n#define DSTAMP __DATE__\n#else\n#define DSTAMP "undated"\n#endif\n#ifdef __FILE__\n#define FSTAMP __FILE__\n#else\n#define FSTAMP "nofile"\n#endif\n'
+                + G_ + 'table(feature) f1 { id = 100; name.1033 = string(STAMP); settings { on { value = 1; name.1033 = string(DSTAMP); } '
+                'off { value = 0; name.1033 = string(FSTAMP); } } default = off; } endtable;\ntable(sub) cA > cB; endtable;\n'))
     bfont = _ttf.simple_font(40, post_names=[".notdef"] + ["g%d" % i for i in range(1, 40)])[0]
     for nm, text in bad:
         pr = gen.Prog()
@@ -121,7 +126,12 @@ def run(tier, seed, replay=None):
                 sj = rng.randrange(1, 1 << 30)
                 runs.append(("shuffle%d" % j, d, {"LD_PRELOAD": shim, "VERIF_SHUFFLE": str(sj)}, ()))
         results = {}
+        if name == "ok_predefined_macros":
+            runs.append(("later", d, None, ()))
         for tag, cwd, envx, prefix in runs:
+            if tag == "later":
+                import time as _time
+                _time.sleep(1.3)       # another second on the wall clock
             p, o, e = go(tag, cwd, envx, prefix)
             p.wait(timeout=300)
             results[tag] = digest(cwd, o, e) + (p.returncode,)
@@ -162,6 +172,6 @@ def run(tier, seed, replay=None):
         "samples": samples, "exhaustive": False,
     })
     rep.assumptions += ["the interleavings of concurrent runs are whatever the scheduler produced (exploration, not proof)",
-                        "wall-clock dependence (the year written into a rebuilt unique name when the input has no date) is not perturbed: no clock control in this sandbox"]
+                        "wall-clock dependence is perturbed only by letting a second pass (and by TZ); the year written into a rebuilt unique name when the input has no date is not perturbed: no clock control in this sandbox"]
     shutil.rmtree(work, ignore_errors=True)
     return rep.finish()
